@@ -57,7 +57,57 @@ fn config_fails_on_missing_require(c: usize) -> bool {
     c == 3 || c == 5
 }
 
+/// configuration 6: a user-defined rule registered through the public API (`Configuration::with_rule`)
+/// that overrides `Rule::require_content`: processing `<dir>/wants-<name>` needs the content of the
+/// work item `<dir>/<name>`, so the item is put on hold until that one is done. Its `process`
+/// replaces the whole block with `return true`: every output must be exactly that.
+const RULE_CONFIG: usize = 6;
+const RULE_OUTPUT: &[u8] = b"return true";
+
+#[derive(Debug, Default)]
+struct WantsSiblingRule {
+    metadata: darklua_core::rules::RuleMetadata,
+}
+
+impl darklua_core::rules::RuleConfiguration for WantsSiblingRule {
+    fn configure(&mut self, _properties: darklua_core::rules::RuleProperties) -> Result<(), darklua_core::rules::RuleConfigurationError> {
+        Ok(())
+    }
+    fn get_name(&self) -> &'static str {
+        "c11-wants-sibling"
+    }
+    fn serialize_to_properties(&self) -> darklua_core::rules::RuleProperties {
+        Default::default()
+    }
+    fn set_metadata(&mut self, metadata: darklua_core::rules::RuleMetadata) {
+        self.metadata = metadata;
+    }
+    fn metadata(&self) -> &darklua_core::rules::RuleMetadata {
+        &self.metadata
+    }
+}
+
+impl darklua_core::rules::Rule for WantsSiblingRule {
+    fn process(&self, block: &mut darklua_core::nodes::Block, _: &darklua_core::rules::Context) -> darklua_core::rules::RuleProcessResult {
+        *block = darklua_core::nodes::Block::default()
+            .with_last_statement(darklua_core::nodes::ReturnStatement::one(true));
+        Ok(())
+    }
+    fn require_content(&self, current: &Path, _: &darklua_core::nodes::Block) -> Vec<PathBuf> {
+        match current.file_name().and_then(|n| n.to_str()).and_then(|n| n.strip_prefix("wants-")) {
+            Some(wanted) => vec![current.with_file_name(wanted)],
+            None => Vec::new(),
+        }
+    }
+}
+
 fn configuration(c: usize) -> Configuration {
+    if c == RULE_CONFIG {
+        let rule: Box<dyn darklua_core::rules::Rule> = Box::new(WantsSiblingRule::default());
+        return Configuration::empty()
+            .with_generator(darklua_core::GeneratorParameters::default_dense())
+            .with_rule(rule);
+    }
     json5::from_str(CONFIGS[c]).expect("C11 harness configuration does not parse")
 }
 
@@ -471,6 +521,11 @@ impl TMeasure {
 
     /// `source` is the key of the file (relative to the case root)
     fn measure(&mut self, source: &str, config: usize) -> Result<Vec<u8>, u32> {
+        if config == RULE_CONFIG {
+            // the rule applied to ANY file that parses gives `return true`; a single-file run
+            // cannot be used (a `wants-` file alone waits for content nobody produces)
+            return self.measure(source, 0).map(|_| RULE_OUTPUT.to_vec());
+        }
         self.counter += 1;
         let out_rel = format!("zz-c11-t-out/o{}.lua", self.counter);
         let (resources, input, output) = match (&self.fs_tree, &self.memory) {
@@ -791,7 +846,7 @@ const LUA_NAMES: [&str; 12] = [
 const OTHER_NAMES: [&str; 8] = [
     "readme.txt", "data.json", ".lua", "noext", "x.lua.txt", "UPPER.LUA", "lua", "a.lua~",
 ];
-const DIR_NAMES: [&str; 6] = ["sub", "deep dir", "x.lua", "v1.2", "\u{e9}t\u{e9}", "n"];
+const DIR_NAMES: [&str; 8] = ["sub", "deep dir", "x.lua", "v1.2", "\u{e9}t\u{e9}", "n", ".hidden", ".cfg.d"];
 
 struct Generated {
     case: Case,
@@ -1062,6 +1117,47 @@ fn generate(rng: &mut Rng, fs: bool, allow_finding_classes: bool) -> Generated {
     blocked.retain(|k| clean.iter().any(|(p, _)| p == k));
     let case = Case { fs, tree: clean, input, output, fail_fast, config, chdir: None };
     Generated { case, faults, blocked, shape }
+}
+
+/// the `require_content` face: configuration 6 on an ordinary generated tree (directory input,
+/// no destination that cannot be written) plus `wants-<name>` files beside healthy Lua files: each
+/// is put on hold until `<name>` is done whenever it is visited first
+fn generate_rule_face(rng: &mut Rng, fs: bool) -> Generated {
+    loop {
+        let mut g = generate(rng, fs, false);
+        if g.shape.contains("in=file") || g.shape.contains("blocked") || (fs && g.shape.contains("existing-file")) {
+            continue;
+        }
+        g.case.config = RULE_CONFIG;
+        let healthy: Vec<String> = g
+            .faults
+            .iter()
+            .filter(|(k, f)| matches!(f, Fault::Healthy | Fault::MissingRequire) && has_lua_extension(k))
+            .map(|(k, _)| k.clone())
+            .collect();
+        let mut added = 0;
+        for key in healthy {
+            if added > 0 && !rng.chance(2, 3) {
+                continue;
+            }
+            let (dir, name) = match key.rsplit_once('/') {
+                Some(x) => x,
+                None => continue,
+            };
+            let wants = format!("{}/wants-{}", dir, name);
+            if g.case.tree.iter().any(|(p, _)| *p == wants || p.starts_with(&format!("{}/", wants))) {
+                continue;
+            }
+            g.case.tree.push((wants.clone(), Ent::File(format!("return 'wants {}'\n", name).into_bytes())));
+            g.faults.insert(wants, Fault::Healthy);
+            added += 1;
+        }
+        if added == 0 {
+            continue;
+        }
+        g.shape = format!("require_content face: {}", g.shape);
+        return g;
+    }
 }
 
 /// fail-fast × one failure of a given kind among `n` files (read: invalid UTF-8 source, parse:
@@ -1537,6 +1633,24 @@ fn run_case(model: &mut Model, g: &Generated, rng: &mut Rng, listed: &BTreeSet<S
     // ---- oracle
     let mut broken = oracle(case, &g.faults, &real, &second);
     broken.extend(oracle_isolation(case, &g.faults, &real));
+    if case.config == RULE_CONFIG && real.process_error.is_none() && !real.panicked {
+        // every output equals the rule applied to its input: `return true`, whichever item was
+        // put on hold for another one's content
+        let exp = expectation(case);
+        let initial = initial_snapshot(case);
+        for (src, dest) in &exp.items {
+            let healthy = matches!(g.faults.get(src), Some(Fault::Healthy) | Some(Fault::MissingRequire) | None);
+            let present = real.after.get(dest);
+            let written = present != initial.get(dest) || exp.in_place;
+            if healthy && (!case.fail_fast || written) {
+                if let Some(Some(bytes)) = present {
+                    if bytes.as_slice() != RULE_OUTPUT && !(case.fail_fast && present == initial.get(dest)) {
+                        broken.push(("rule-not-applied".into(), format!("the output {} of {} is `{}`, not the rule applied to its input (`return true`)", dest, src, String::from_utf8_lossy(bytes))));
+                    }
+                }
+            }
+        }
+    }
     if case.fail_fast && real.process_error.is_none() && !real.panicked {
         // what a fail-fast run did write must be what the ordinary run writes, and it must have
         // stopped: the position of the stopping file is read off the number of outputs written
@@ -1867,7 +1981,7 @@ pub fn run(report: &mut Report, replay: Option<&str>) {
         return;
     }
 
-    report.rule = "random directory trees (nesting, non-Lua files, names with spaces/dots/unicode, a directory named x.lua) × input as file/dir/./dir/dir/ /dir/sub/.. /missing × output absent/new/existing dir/existing file/with extension/same as input/blocked destinations (+ the finding classes: output inside input, input inside output, input `.`) × fault subsets (syntax, invalid UTF-8, missing require under convert_require/bundle, directory or file in the way) × fail-fast (random, plus a directed face: one failure of each kind read/parse/transform/write among 3–5 files, position of the stopping file measured) × non-Lua siblings sharing a Lua file's stem (`a.tmp`, `a.bak`, `a.lua~`, `a.txt`, `a.lua.tmp`, a `.luau` twin) in input trees and pre-seeded beside the destinations of existing output directories × 6 configurations (two of them resolve `@dep` through nested `.luaurc` files: convert_require to roblox and bundling), on memory resources and on a real temporary directory; non-trivial = process succeeded as a whole and the work list has ≥ 2 items".to_owned();
+    report.rule = "random directory trees (nesting, non-Lua files, names with spaces/dots/unicode, a directory named x.lua) × input as file/dir/./dir/dir/ /dir/sub/.. /missing × output absent/new/existing dir/existing file/with extension/same as input/blocked destinations (+ the finding classes: output inside input, input inside output, input `.`) × fault subsets (syntax, invalid UTF-8, missing require under convert_require/bundle, directory or file in the way) × fail-fast (random, plus a directed face: one failure of each kind read/parse/transform/write among 3–5 files, position of the stopping file measured) × non-Lua siblings sharing a Lua file's stem (`a.tmp`, `a.bak`, `a.lua~`, `a.txt`, `a.lua.tmp`, a `.luau` twin) in input trees and pre-seeded beside the destinations of existing output directories × 7 configurations (one is a user-defined rule registered through Configuration::with_rule whose require_content names another work item `wants-<name>` → `<name>` and whose process rewrites the block to `return true`: every output must be exactly that; two of them resolve `@dep` through nested `.luaurc` files: convert_require to roblox and bundling), on memory resources and on a real temporary directory; non-trivial = process succeeded as a whole and the work list has ≥ 2 items".to_owned();
 
     let mut model = Model::spawn();
     let listed = replay_known_findings(report, &mut model);
@@ -1940,6 +2054,30 @@ pub fn run(report: &mut Report, replay: Option<&str>) {
             }
             if let Some(s) = o.sample {
                 report.sample(s);
+            }
+            for v in o.violations {
+                report.violation(v);
+            }
+        }
+    }
+
+    // ---- a user-defined rule whose `require_content` names another work item of the batch
+    {
+        let mut model = Model::spawn();
+        let (mem_n, fs_n) = if thorough { (400, 160) } else { (110, 50) };
+        for i in 0..(mem_n + fs_n) {
+            let g = generate_rule_face(&mut rng, i >= mem_n);
+            let o = run_case(&mut model, &g, &mut rng, &listed);
+            report.case(o.nontrivial_key);
+            report.count("require_content_face_cases", 1);
+            for (n, b) in o.hists {
+                report.hist(&n, &b);
+            }
+            for (n, c) in o.counters {
+                report.count(&n, c);
+            }
+            for (id, _) in o.finding_hits {
+                report.count(&format!("oracle_failures_attributed_to_{}", id), 1);
             }
             for v in o.violations {
                 report.violation(v);
